@@ -460,6 +460,7 @@ func (c *evalCtx) evaluate(st Stream, res streamResult) {
 		}
 	}
 	for li, l := range st.Layouts {
+		retried := map[int]*WorkerOut{}
 		if res.errs[li] != nil {
 			c.sum.HarnessError(fmt.Sprintf("stream %s layout %s: %v", st.Name, l.Name, res.errs[li]))
 			continue
@@ -508,6 +509,30 @@ func (c *evalCtx) evaluate(st Stream, res streamResult) {
 				}
 			}
 			if class == "" {
+				// false-alarm hygiene: a disagreement seen while ten worker processes share the machine is
+				// re-run alone (same layout, fresh directory) before it is believed
+				if _, done := retried[li]; !done {
+					docs := make([]string, len(st.Events))
+					for i, e := range st.Events {
+						docs[i] = e.doc()
+					}
+					qtexts := make([]string, len(st.Queries))
+					for i, qq := range st.Queries {
+						qtexts[i] = qq.Text
+					}
+					ro, rerr := runLayout(filepath.Join(c.cfg.Out, "w_"+st.Name+"_"+l.Name+"_retry"), Script{Idx: "ix" + st.Name, Cfg: l, Events: docs, Queries: qtexts})
+					if rerr != nil || len(ro.Obs) != len(st.Queries) {
+						ro = nil
+					}
+					retried[li] = ro
+				}
+				if ro := retried[li]; ro != nil && obsKey(ro.Obs[qi]) == obsKey(want[qi]) {
+					c.sum.Count("flaky/not_reproduced_alone")
+					c.sum.Notes = append(c.sum.Notes, fmt.Sprintf("NOT REPRODUCED when the layout was re-run alone (possible race under load, see C11): stream %s layout %s query `%s`: got %s, expected %s", st.Name, l.Name, q.Text, obsKey(got), obsKey(want[qi])))
+					continue
+				} else if ro != nil {
+					got = ro.Obs[qi]
+				}
 				dim := layoutDim(l)
 				baseOK := base >= 0 && res.errs[base] == nil && obsKey(res.outs[base].Obs[qi]) == obsKey(want[qi])
 				switch {
